@@ -71,7 +71,7 @@ def pair_plan(p, tier, rng):
         if fam == "multi":
             cand = [(a, b) for a in ids for b in ids if a != b]
             rng.shuffle(cand)
-            out += [(name, a, b) for a, b in cand[: 8 if tier == "quick" else 20]]
+            out += [(name, a, b) for a, b in cand[: 3 if tier == "quick" else 12]]
         elif fam in ("algo", "api", "nat"):
             cand = [(a, b) for a in ids for b in ids if a != b]
             rng.shuffle(cand)
@@ -180,7 +180,7 @@ def run_explore(shard, mon, S, p):
 
             judge_run(base, {"first": 0, "preempt": []})
             mon.distinct((a, b, gran, 0, ()))
-            cap = 400 if shard["tier"] == "quick" else 6000
+            cap = 200 if shard["tier"] == "quick" else 3000
             for first, n_first in ((0, na), (1, nb)):
                 ks = range(1, n_first + 1)
                 if n_first > cap:
